@@ -45,6 +45,9 @@ pub enum Edit {
     /// generated project: the definition whose header is at `line` and every reference to it are
     /// renamed consistently to `new_name` (e.g. the name of a catalogue entry)
     RenameEverywhere { line: usize, new_name: String },
+    /// generated project: the definition at `line` and all its references are renamed to a name
+    /// that differs only in case / blanks (`how`), and an unused copy of it keeps the old name
+    NearNamePair { line: usize, how: String },
     /// C02: definition header renamed (references untouched)
     DefRenamed { line: usize },
     /// C02: definition block removed
@@ -72,6 +75,7 @@ impl Edit {
             Edit::SpaceEmptied { .. } => "proj.space_emptied",
             Edit::CloneDamaged { .. } => "proj.unused_copy_damaged",
             Edit::RenameEverywhere { .. } => "proj.renamed_consistently",
+            Edit::NearNamePair { .. } => "proj.near_identical_names",
             Edit::DefRenamed { .. } => "disk.def_renamed",
             Edit::DefRemoved { .. } => "disk.def_removed",
             Edit::RefRenamed { .. } => "disk.ref_renamed",
@@ -95,6 +99,7 @@ impl Edit {
             | Edit::SpaceEmptied { line }
             | Edit::CloneDamaged { line, .. }
             | Edit::RenameEverywhere { line, .. }
+            | Edit::NearNamePair { line, .. }
             | Edit::DefRenamed { line }
             | Edit::DefRemoved { line }
             | Edit::RefRenamed { line, .. } => Some(*line),
@@ -572,6 +577,29 @@ pub fn apply(text: &str, e: &Edit) -> Option<String> {
             let mut v = lines.clone();
             v[*line] = &newl;
             Some(join(&v))
+        }
+        Edit::NearNamePair { line, how } => {
+            let l = get(*line)?;
+            let (old, _) = header_of(l)?;
+            let nn = crate::engines::procsim::near_name(&old, how)?;
+            if text.contains(&format!("\"{}\"", nn)) {
+                return None;
+            }
+            // the block as it is (old name), to be re-inserted as the unused twin
+            let mut end = *line + 1;
+            while end < n && lines[end].trim() != ".." {
+                end += 1;
+            }
+            if end >= n {
+                return None;
+            }
+            let twin: Vec<String> = lines[*line..=end].iter().map(|s| s.to_string()).collect();
+            let renamed = text.replace(&format!("\"{}\"", old), &format!("\"{}\"", nn));
+            let rl: Vec<&str> = renamed.split('\n').collect();
+            let mut out: Vec<String> = rl[..=end].iter().map(|s| s.to_string()).collect();
+            out.extend(twin);
+            out.extend(rl[end + 1..].iter().map(|s| s.to_string()));
+            Some(out.join("\n"))
         }
         Edit::RenameEverywhere { line, new_name } => {
             let l = get(*line)?;
